@@ -741,6 +741,11 @@ class Driver:
             csa = m.current_state
             csn = cs_sub.get()
             lab_ = model._label(self.ctx or {}, model.cur)
+            if getattr(model, "cs_tainted", False):
+                # an outside writer touched the topic: only is_executing is judged below
+                csa = csn = (model.cur or "") if model.executing else ""
+                if not model.executing and ((model.cur is not None and model.cur != spec.default) or model.left_selected is not None):
+                    csa = csn = "<dangling>"
             if csa != csn:
                 model.miss(f"flags/current_state-nt{lab_}", {"C04", "C13"}, f"{where}: attribute current_state={csa!r} but NetworkTables has {csn!r}")
             if model.executing:
@@ -809,6 +814,16 @@ class Driver:
                             # consumed more script entries: re-align the in-state scripts with the machine under test
                             twin._scripts = {k: [list(a) for a in v] for k, v in m._scripts.items()}
                             tw_running = True
+                    elif k == "ntcs":
+                        # a dashboard client writes the (NetworkTables-backed, informational) current_state topic; what
+                        # the machine does must not depend on it. From here on current_state itself is not judged.
+                        if "cs" not in pubs:
+                            pubs["cs"] = inst.getStringTopic(prefix + "current_state").publish()
+                            self.handles.append(pubs["cs"])
+                        pubs["cs"].set(op[1])
+                        model.cs_tainted = True
+                        model.bump("dashboard-writes-current_state")
+                        continue
                     elif k == "busy":
                         m._busy_flag = bool(op[1])
                         model.bump("busy-override:" + ("on" if op[1] else "off"))
@@ -1205,6 +1220,8 @@ def decode_sm_case(code, profile):
             pre.append(["ns", names[tgt % len(names)]])
         elif 24 <= extra <= 31 and t0_c == 4 and cname_c == 0:
             pre.insert(0, ["busy", extra % 2 == 0])
+        elif extra == 23:
+            pre.insert(0, ["ntcs", ["", names[tgt % len(names)], "no such state"][pos % 3]])
         elif extra in (24, 25, 26):
             pre.append(["ns", names[tgt % len(names)]])  # (a no-op for the driver unless the machine runs or is stopped and not requested)
         elif extra in (27, 28):
@@ -1213,7 +1230,12 @@ def decode_sm_case(code, profile):
             pre.append(["gap", [1, 5_000, 15_000, 20_000, 100_000][pos]])
         elif extra in (34, 35) and timed:
             us = DUR_POOL[dpool] if dpool < len(DUR_POOL) else max(1, dfree)
-            pre.insert(0, ["dur", timed[tgt % len(timed)], us, ["nt", "attr", "nt", "exact"][via]])
+            if extra == 35 and via != 3:
+                # the dashboard write arrives after this iteration's engage() (which may have selected the state) and
+                # before its execute(): the duration that counts is the one at the state's first run
+                pre.append(["dur", timed[tgt % len(timed)], us, ["nt", "attr", "nt"][via]])
+            else:
+                pre.insert(0, ["dur", timed[tgt % len(timed)], us, ["nt", "attr", "nt", "exact"][via]])
         hist.append({"pre": pre, "adv": decode_adv(adv)})
     case["hist"] = hist
     case["t0"] = [0, 0, 1, 20_000, 123_457, 5_000_000][t0_c]
@@ -1287,6 +1309,8 @@ def decode_auto_case(code):
                 pre.append(["on_disable"])  # also right after on_enable, before any iteration ran
             elif x == 37 and timed:
                 pre.insert(0, ["dur", timed[tgt % len(timed)], DUR_POOL[dpool], ["nt", "attr"][via]])
+            elif x in (35, 36):
+                pre.insert(0, ["ntcs", ["", regular[tgt % len(regular)]][x - 35]])
             hist.append({"pre": pre, "adv": decode_adv(adv)})
         if pi == len(periods) - 1 or skip_disable != 7:
             hist.append({"pre": [["on_disable"]], "run": run_flag, "adv": decode_adv(dadv)})
